@@ -692,6 +692,14 @@ def chain_names(body, o, depth=0):
         if l <= body.argc and l != 0:
             return out
         if l in body.user_locals and not body.stable(l):
+            # a coroutine re-binds its arguments (`x#1 = x`, then borrows x#1 mutably): still the parameter
+            ds0 = [x for x in body.defs().get(l, []) if x[0] == 'assign' and not x[2]['pl']['p']]
+            if len(ds0) == 1 and ds0[0][2]['rv']['r'] == 'use' and ds0[0][2]['rv']['a'][0].get('k') in ('copy', 'move') and not pl['p']:
+                src = ds0[0][2]['rv']['a'][0]['pl']
+                if src['l'] <= body.argc and src['l'] != 0:
+                    for n, p in body.names.items():
+                        if p['l'] == src['l'] and list(p['p']) == list(src['p']):
+                            out.append(n)
             return out
         ds = body.defs().get(l, [])
         whole = [x for x in ds if x[0] == 'call' or not x[2]['pl']['p']]
